@@ -349,7 +349,7 @@ func runC02(r *mc.Run) {
 			raw, _ := parts.Bytes()
 			opts := w.Options(lv[li])
 			opts.TrustedRoots = pools[pi].pool
-			err := world.SafeVerifyRaw(raw, opts)
+			err := verifyRawBoth(r, id, raw, opts)
 			cond, why := ref.TrustCond(chain, pools[pi].eff)
 			out := verdict(err)
 			switch {
@@ -499,7 +499,7 @@ func runC02(r *mc.Run) {
 				now := w.Now
 				opts.Now = &now
 				opts.Getter = w.Getter.Clone()
-				err := world.SafeVerifyRaw(w.Raw(), opts)
+				err := verifyRawBoth(r, id, w.Raw(), opts)
 				out = verdict(err)
 				listed := cfg.lists != nil && cfg.lists[qi]
 				switch {
